@@ -461,6 +461,10 @@ where
     }
 }
 
+#[cfg(all(test, feature = "mocks", feature = "verif-hooks"))]
+#[path = "connector_verif_replays.rs"]
+mod verif_replays;
+
 mod future {
     use super::{Connector, ConnectorMeta};
 
